@@ -11,25 +11,25 @@ BASELINE_OFF = "cd /repo && GOFLAGS=-mod=mod GOPROXY=off go test -vet=off -count
 E1 = "bounded exhaustive enumeration (explicit small-scope model checking of the real implementation against a reference oracle)"
 CHECKS = {
  "C01": ("model_checking", E1 + " over build pairs from a block alphabet x every registered compression setting; independent Lstat tree oracle and independent patch decoder",
-  "Every ordered pair of builds of the stated families (block-level F1, shape-level F2 x all 20 compression settings, limit family F3 around 4MiB/8MiB runs, file-sequence family F4: every ordered triple of new files from a menu of ways to reuse two old files) goes through the real WritePatch -> patcher -> fresh bowl; the output tree is compared entry by entry with the new build. Exhaustive within the families.",
+  "Every ordered pair of builds of the stated families (block-level F1, shape-level F2 x all 20 compression settings, limit family F3 around 4MiB/8MiB runs, file-sequence family F4: every ordered triple of new files from a menu of ways to reuse two old files, weak-twin family F5: blocks that share the rolling checksum of another block but not its bytes) goes through the real WritePatch -> patcher -> fresh bowl; the output tree is compared entry by entry with the new build. Exhaustive within the families.",
   "Byte values outside the seeded block alphabet are not enumerated; file modes are not compared.", "DESIGN.md#c01"),
  "C02": ("model_checking", E1 + " over tree pairs containing every rename/swap/chain/duplicate/kind change on 2-3 names; pre-commit and post-commit snapshots",
   "All 4096 pairs of P1 (rename relations), all 6561 pairs of P2 (kind changes, 9 per-name states incl. a directory with content two levels deep), P4 (three names x six kinds/shapes, one content: all 46656 pairs in thorough, every 13th in quick), block-level P3 with plain and optimized patches, applied in place through the real overlay bowl; old build must be untouched before Commit, directory must equal the new build after. Sub-check map-orders enumerates every iteration order of the maps the commit phase ranges over (pwr/bowl rebuilt with range-over-map rewritten to an explored key order).",
   "Map orders are enumerated for P1 (thorough: P2 too). The kind-change defects this check found (RC1-RC4) are all repaired in /repo (known_findings.json: fixed).", "DESIGN.md#c02"),
  "C04": ("model_checking", E1 + " over size tuples x producers x compression; choice-tape DFS (deviation bound 2) over the source pool's read slicing",
   "All 1-3 file size tuples around block multiples x {stand-alone signing, diff-time signing vs empty / identical old build}; every signature stream read back and compared hash for hash with ComputeSignature and with an independent weak+MD5 reference; read slicings of the shared source reader enumerated by deviation-bounded DFS; pristine build validates clean, also when the ValidatorContext was used on a damaged copy before (context-reuse) and for symlink destinations that are not lexically clean.",
-  "Short reads are 1 or 16383 bytes at up to 2 Read calls per execution.", "DESIGN.md#c04"),
+  "Deviations: short reads of 1 or 16383 bytes, io.EOF reported together with the last bytes; at most 2 per execution.", "DESIGN.md#c04"),
  "C05": ("fault_enumeration", "exhaustive enumeration of damage sequences (length 1, 2; 3 in thorough) from a boundary-offset damage catalogue, oracle by independent byte comparison",
-  "Every single damage and every pair (thorough: triple) of damages on distinct entries of 4 builds, plus 1..130 consecutive damaged blocks in 70/132-block files; wounds file decoded independently; every differing offset must lie in a FILE wound, shorter/longer files and wrong kinds must be wounded, wounds well-formed; fail-fast must return an error.",
+  "Every single damage, every pair (thorough: triple) of damages on distinct entries and every (content damage, length change) pair on one file of 4 builds, plus 1..130 consecutive damaged blocks in 70/132-block files; wounds file decoded independently; every differing offset must lie in a FILE wound, shorter/longer files and wrong kinds must be wounded, wounds well-formed; fail-fast must return an error.",
   "Offsets/lengths from the boundary set around every block boundary; two-flip weak-hash collisions included.", "DESIGN.md#c05"),
  "C06": ("model_checking", "stateless model checking of the real Validate + archive healer under a controlled scheduler with file-system calls as visible operations (preemption-bounded DFS with happens-before caching), plus exhaustive fault enumeration of damage sequences (incl. kind swaps hiding subtrees) healed by the free-running code",
   "Builds x all damage sequences of length 1-2 (+ structural triples): Validate with an archive healer must return nil, every signed entry must be present with signed content, fail-fast validation must pass afterwards, a valid directory must not be touched (inode/mtime).",
-  "Scheduler scenarios use small builds (files below one copy chunk) and bounds 0-1 (quick) / 1-2 (thorough); the large damage enumeration runs free (5 repetitions, schedule-dependent failures tagged). Known finding: directory replaced by a symlink to a twin directory.", "DESIGN.md#c06"),
+  "Scheduler scenarios use small builds (files below one copy chunk) and bounds 0-1 (quick) / 1-2 (thorough); the large damage enumeration runs free (5 repetitions, schedule-dependent failures tagged).", "DESIGN.md#c06"),
  "C08": ("model_checking", E1 + " over renames, duplications and k<=2 localized edits at boundary offsets/lengths; fresh bytes counted from the independently decoded op stream",
-  "Identical builds, every rename/duplication, every k=1 and k=2 edit (overwrite/insert/delete x boundary offsets x boundary lengths), full shift sweep 1..B-1 in thorough: copied files contribute no DATA bytes, counters add up, fresh <= introduced + (2k+2) blocks.",
-  "High-entropy content from seeded pseudo-random blocks.", "DESIGN.md#c08"),
+  "Identical builds, every rename/duplication, every k=1 and k=2 edit (overwrite/insert/delete x boundary offsets x boundary lengths), full shift sweep 1..B-1 in thorough, weak twins (a block with the rolling checksum of an old block and other bytes before the real block), fresh runs around 4MiB and 8MiB followed by old data: copied files contribute no DATA bytes, counters add up, fresh <= introduced + (2k+2) blocks.",
+  "High-entropy content from seeded pseudo-random blocks, plus weak twins derived from them.", "DESIGN.md#c08"),
  "C09": ("fault_enumeration", "exhaustive enumeration of damages to the old build x patch shapes (block ranges, whole-file copies, bsdiff series) applied through the real safekeeper pool",
-  "10+ build pairs x every single damage (flip/truncate/extend/delete at boundary offsets) and pairs across two files / within one file: outcome must be an error from Resume/Commit or exactly the new build; the undamaged build must never be rejected.",
+  "10+ build pairs x every single damage (flip, weak twin of a block, truncate, extend, delete at boundary offsets) and pairs across two files / within one file: outcome must be an error from Resume/Commit or exactly the new build; the undamaged build must never be rejected.",
   "Kind damages of old files are not enumerated (not in the property's quantifier).", "DESIGN.md#c09"),
  "C10": ("fault_enumeration", "exhaustive enumeration of byte-level truncations and field-level message mutations (singles, pairs) of valid streams, fed to patcher/optimizer/signature reader/overlay applier; oracle: returns, no panic, no hang",
   "Every prefix of every seed stream and every single field mutation (indices/spans negative, zero, huge; unknown op types; swapped series kinds; missing/duplicated/moved end markers; bsdiff controls out of range; hash counts) in none/gzip/brotli framing, thorough adds pairs: each target must return an error or complete.",
@@ -40,13 +40,13 @@ CHECKS = {
   "Bounds: alphabets {0,1},{0,1,2}; lengths as in DESIGN C11. Scaled builds change only the MaxDataOp constant. Larger block sizes only via the enumerated real-scale family.",
   "DESIGN.md#c11"),
  "C16": ("model_checking", "stateless model checking of the real Validate under a controlled cooperative scheduler (source-instrumented build): preemption-bounded DFS over goroutine interleavings, select choices and the cancellation instant, with happens-before state caching",
-  "For each scenario (build x damage incl. a missing target directory x consumer {fail-fast, wounds writer, writer with uncreatable path, printer, archive healer} x wound-channel capacity {1,2,1024} x canceller) every interleaving up to the stated preemption bound (unbounded for the 1-file build in thorough) is executed on the real code; every execution must end with Validate returned (deadlock = all goroutines parked) and a nil fail-fast verdict only on an undamaged directory. Violations carry the exact schedule and are replayed before being reported.",
+  "For each scenario (build x damage incl. directory and symlink both gone and a missing target directory x consumer {fail-fast, wounds writer, writer with uncreatable path, printer, archive healer} x wound-channel capacity {1,2,1024} x canceller) every interleaving up to the stated preemption bound (unbounded for the 1-file build in thorough) is executed on the real code; every execution must end with Validate returned (deadlock = all goroutines parked) and a nil fail-fast verdict only on an undamaged directory. Violations carry the exact schedule and are replayed before being reported.",
   "Code between visible operations is atomic (data races are C15's race pass); custom consumers cannot be injected through Validate; capacity scaling by overlay.", "DESIGN.md#c16"),
  "C17": ("model_checking", E1 + " over builds x ALL subsets of file indices x plain/optimized patches x compression, with a recording bowl and recording pool",
   "720 orderings of 6 file kinds x all 64 whitelists, each described by a sparse map (members only) and a dense map (explicit false entries) (plain, optimized, all compression settings on a slice) plus the 2051-old-file family (targetIndex 2048/2049/2050): Resume returns nil, touched count = |subset|, bowl and pool see only whitelisted files, each whitelisted file equals the full application's.",
   "Pool accesses are attributed to the file announced by the patcher's progress label and cross-checked against the series' references.", "DESIGN.md#c17"),
  "C18": ("model_checking", E1 + " over signed sizes x altered-block subsets / length changes x write slicings x {error, wound, aggregated wound} mode, in-memory inner pool",
-  "Every signed size around block multiples x every subset of altered blocks, truncation and extension, and structured signed contents (zero blocks, repeated blocks) x all slicings with <=3 cuts at boundary positions plus uniform slicings: error mode must fail at the completing write/close and leak nothing from the bad block on; wound mode must tile the written range in order with exactly the differing blocks wounded.",
+  "Every signed size around block multiples x every assignment of alterations (byte inversions, next signed block, weak twin) to the blocks, truncation and extension, and structured signed contents (zero blocks, repeated blocks) x all slicings with <=3 cuts at boundary positions plus uniform slicings: error mode must fail at the completing write/close and leak nothing from the bad block on; wound mode must tile the written range in order with exactly the differing blocks wounded.",
   "Sub-check wound-interleavings enumerates writer/relay/aggregator/consumer interleavings under the controlled scheduler (unbounded for 1-block files, bound 3 / unbounded for 2 blocks).", "DESIGN.md#c18"),
  "C19": ("model_checking", E1 + " over trees x {zip, tar} x worker counts, and every interruption point of a resumable extraction (deterministic seams), incl. forced out-of-order completion",
   "12 catalogue + 180 shape trees x formats x workers {1,2,3,4,8,16,-1}: extracted tree equals the source, counts equal entries, re-extraction idempotent; 1-worker crash after every entry and at every seam event, and forced out-of-order schedules for 2-3 workers, then restart with the same resume file must complete the tree.",
@@ -58,19 +58,19 @@ CHECKS.update({
   "Per configuration ({fresh, overlay} x {rsync, optimized} x {none, gzip-6, brotli-1} x 3 build pairs): every checkpoint offered x crash points x torn states (as at t / as at k / truncated at boundary lengths / zero-filled / missing) x chains (depth 3) x save schedules; the resumed run must finish and produce exactly the uninterrupted run's tree; always-saving consumers must be offered checkpoints.",
   "Crash model: file-granular prefix/torn states of writes after the checkpoint; no reordering inside a write; fsync omissions are not observable in-process. Two-file torn products use a reduced state set.", "DESIGN.md#c03"),
  "C07": ("model_checking", E1 + " over patches x optimizer parameters (partitions 0..16, concurrency, ForceMapAll, size limits, output compression); optimized patch applied fresh AND in place and compared with the new build",
-  "1374 byte-level pairs and 53 block-level pairs x partitions 0..16 x ForceMapAll x size limits (full product), concurrency x compression cycled: NewContext/Optimize must not crash (journaled workers attribute process crashes) and the optimized patch must apply fresh and in place to exactly the new build.",
+  "1374 byte-level pairs and 53 block-level pairs x partitions 0..16 x ForceMapAll x size limits (full product), concurrency x compression cycled, file-sequence pairs through one optimizer context, and suffix-sort concurrency -1..17 x partitions 0..16 in full product on four pairs: NewContext/Optimize must return (120 s watchdog), must not crash (journaled workers attribute process crashes) and the optimized patch must apply fresh and in place to exactly the new build.",
   "Optimized patches byte-identical to one already verified for the same pair are not re-applied.", "DESIGN.md#c07"),
  "C12": ("model_checking", E1 + " of bsdiff.Do + Patch against a reference applier and the mid-series restart oracle; explicit-state BFS to fixpoint over the real lrufile against a shadow model; constant-scaled cache geometries by overlay",
-  "All (old,new) over {0,1} up to 8x8 and {0,1,2} up to 5x5 x partitions, structured large family, all hand-made valid series of <=5 messages under scaled cache geometries; lrufile: every reachable shadow state (offset + LRU residency) for chunk 1..4 x entries 1..3 x sizes 0..9 explored by BFS with every seek/read/reset operation, implementation stats and data compared with the shadow model at every step.",
+  "All (old,new) over {0,1} up to 8x8 and {0,1,2} up to 5x5 x partitions, medium family (Thue-Morse, Fibonacci and LFSR words of 32-96 symbols under every rotation, segment deletion/duplication, flips, self-concatenation: overlapping matches), structured large family, all hand-made valid series of <=5 messages under scaled cache geometries; lrufile: every reachable shadow state (offset + LRU residency) for chunk 1..4 x entries 1..3 x sizes 0..9 explored by BFS with every seek/read/reset operation, implementation stats and data compared with the shadow model at every step.",
   "Sub-check scanner-interleavings runs bsdiff.Do under the controlled scheduler (bounded interleavings of suffix-sort goroutines, workers, dispatcher, collector; match channels also scaled to 1-2 slots): every schedule must produce a series that applies to new and equals the default schedule's. Underlying readers fill the buffer except at EOF.", "DESIGN.md#c12"),
  "C13": ("model_checking", E1 + " over message-size sequences x every compressor/quality x save-request positions; every popped checkpoint gob round-tripped and resumed in a brand-new source+reader stack (also second generation)",
   "All sequences of length <=2 over sizes straddling the 32KiB buffer and its power-of-two growth steps (0..4MiB+1), monotone/big-then-small sequences of length 3-4, x {none, gzip 1-9, brotli 0-9} x save before message i / every message: uninterrupted read equals the written sequence then EOF; every resumed reader yields exactly the unread suffix; checkpoint offsets are message boundaries of the independently framed stream.",
   "No checkpoint count is asserted (brotli offers few). Brotli has no second independent decoder offline.", "DESIGN.md#c13"),
  "C14": ("model_checking", E1 + " over (old,new) x all cuts into <=3 writes x flush/resume tags with window/threshold scaled to 8/2 and 4/1 by overlay; full-scale segment grammar",
-  "Scaled: every binary (old,new) up to length 8 and every equality pattern up to 12-13 x every cut and tag (plain, Flush, Flush+resume from reported offsets, resume after stale writes); full scale: run lengths around the 8KiB threshold and the 128KiB window x placements x write sizes. Real OverlayPatchContext.Patch + truncate must give new; reference applier agrees; reported offsets equal bytes consumed/produced.",
+  "Scaled: every binary (old,new) up to length 8, every equality pattern up to 12-13 and 40-byte two-run contents with a moved border x every cut and tag (plain, Flush, Flush+resume from reported offsets, resume after stale writes); full scale: run lengths around the 8KiB threshold and the 128KiB window x placements x write sizes. Real OverlayPatchContext.Patch + truncate must give new; reference applier agrees; reported offsets equal bytes consumed/produced.",
   "Scaling changes only the two constants; effective values are probed behaviourally and scaled sub-checks skip otherwise.", "DESIGN.md#c14"),
- "C15": ("model_checking", "stateless model checking of WritePatch, the bsdiff scanner and the optimizer under a controlled cooperative scheduler (preemption-bounded DFS with happens-before state caching over interleavings, select choices, map iteration orders and short reads); separate Go race detector pass on the free-running bodies",
-  "Every interleaving (up to the stated preemption bound per scenario) of the differ's diff/sign/reader goroutines (incl. a 2100-block old signature with repeated block contents), of the bsdiff workers/dispatcher/collector/suffix-sort goroutines and every map iteration order of the optimizer's analysis must write byte-identical patch, signature, counters, control messages and mappings; no deadlock. Large inputs (1.2-1.6MB) diffed under GOMAXPROCS 1,2,4,8,16 must give identical bytes. Race freedom: the same bodies under -race with GOMAXPROCS 1,2,4,16 (a detector pass, not an enumeration).",
+ "C15": ("model_checking", "stateless model checking of WritePatch, the bsdiff scanner and the optimizer under a controlled cooperative scheduler (preemption-bounded DFS with happens-before state caching over interleavings, select choices, map iteration orders and source-reader answers: short reads, EOF with data, injected read error); separate Go race detector pass on the free-running bodies",
+  "Every interleaving (up to the stated preemption bound per scenario) of the differ's diff/sign/reader goroutines (incl. a 2100-block old signature with repeated block contents), of the bsdiff workers/dispatcher/collector/suffix-sort goroutines and every map iteration order of the optimizer's analysis must write byte-identical patch, signature, counters, control messages and mappings; with a failing source reader every schedule must make the diff fail; no deadlock. Large inputs (1.2-1.6MB) diffed under GOMAXPROCS 1,2,4,8,16 must give identical bytes. Race freedom: the same bodies under -race with GOMAXPROCS 1,2,4,16 (a detector pass, not an enumeration).",
   "Code between visible operations is atomic under the scheduler; io.Pipe modelled atomically; data races only through the race-detector pass.", "DESIGN.md#c15"),
 })
 
